@@ -1812,7 +1812,7 @@ func (c *Conn) protectedReplayMarker(epoch uint16, sequenceNumber uint64) (func(
 	common := dtlsstate.CommonState(c.state)
 	for len(common.ReplayDetector) <= int(epoch) {
 		common.ReplayDetector = append(common.ReplayDetector,
-			replaydetector.New(c.replayProtectionWindow, ^uint64(0)),
+			replaydetector.New(replayDetectorWindow(c.replayProtectionWindow), ^uint64(0)),
 		)
 	}
 	accept, ok := common.ReplayDetector[int(epoch)].Check(sequenceNumber)
@@ -1830,6 +1830,16 @@ func (c *Conn) protectedReplayMarker(epoch uint16, sequenceNumber uint64) (func(
 
 		return latest
 	}, true
+}
+
+// replayDetectorWindow returns the window size handed to the replay detector.
+// Its bitmap keeps only 64-(size mod 64) history bits in the top word, so for
+// sizes such as 33..63 or 97..127 a duplicate that is still inside the window
+// is no longer recognised and the payload would be delivered twice. Rounding up
+// to a multiple of 64 keeps at least the configured reordering tolerance and
+// makes duplicate detection exact for every configured size.
+func replayDetectorWindow(window uint) uint {
+	return (window + 63) / 64 * 64
 }
 
 func (c *Conn) queueIfCipherSuiteUninitialized(
@@ -1948,7 +1958,7 @@ func (c *Conn) legacyReplayMarker(header *recordlayer.Header) (func() bool, bool
 	common := dtlsstate.CommonState(c.state)
 	for len(common.ReplayDetector) <= int(header.Epoch) {
 		common.ReplayDetector = append(common.ReplayDetector,
-			replaydetector.New(c.replayProtectionWindow, recordlayer.MaxSequenceNumber),
+			replaydetector.New(replayDetectorWindow(c.replayProtectionWindow), recordlayer.MaxSequenceNumber),
 		)
 	}
 	markPacketAsValid, ok := common.ReplayDetector[int(header.Epoch)].Check(header.SequenceNumber)
